@@ -356,6 +356,8 @@ type vTimer struct {
 	owner *vThread
 	kind  string
 	d     time.Duration
+	// a time.Timer fires once per NewTimer/Reset and never after Stop; a Ticker fires until stopped
+	fired, stopped bool
 }
 
 func (t *vTimer) Stop() bool {
@@ -365,7 +367,22 @@ func (t *vTimer) Stop() bool {
 	if t.tick != nil {
 		t.tick.Stop()
 	}
-	return true
+	was := !t.stopped && !(t.kind == "timer" && t.fired)
+	t.stopped = true
+	return was
+}
+
+func (t *vTimer) Reset(d time.Duration) bool {
+	if t.real != nil {
+		return t.real.Reset(d)
+	}
+	if t.tick != nil {
+		t.tick.Reset(d)
+		return true
+	}
+	was := !t.stopped && !(t.kind == "timer" && t.fired)
+	t.fired, t.stopped, t.d = false, false, d
+	return was
 }
 
 var vTimers []*vTimer // timers created under the scheduler, in creation order
@@ -397,6 +414,10 @@ func vFire(th *vThread, kind string) bool {
 	for i := len(vTimers) - 1; i >= 0; i-- {
 		t := vTimers[i]
 		if t.owner == th && t.kind == kind {
+			if t.stopped || (t.kind == "timer" && t.fired) {
+				return false // already expired (not Reset) or stopped: the real timer would stay silent
+			}
+			t.fired = true
 			select {
 			case t.ch <- time.Now():
 			default:
